@@ -17,20 +17,21 @@ CONSTANT Repaired
 Kinds == {"source", "ordinary", "multi", "down", "loop", "cut", "overlap"}
 \* rows_late: the last row ends after the chunk; rows_late_inner: an earlier row does (rows are sorted by start, not by end:
 \* Chunk.__init__ looks at the ends of the last 500 rows)
-Viols == {"wrong_dtype_bare", "wrong_dtype_chunk", "rows_early", "rows_late", "rows_late_inner", "wrong_label", "overlap", "gap", "non_dict"}
+\* sibling_label: a multi-output plugin returns, for one output, a chunk labelled as its other output
+Viols == {"wrong_dtype_bare", "wrong_dtype_chunk", "rows_early", "rows_late", "rows_late_inner", "wrong_label", "sibling_label", "overlap", "gap", "non_dict"}
 Outside == {"rows_early", "rows_late", "rows_late_inner"}
 Positions == {"first", "middle", "last"}
 Procs == {"single_thread", "threaded_mailbox"}
 
 \* violation kinds applicable to the plugin kind
 Applicable(k, v) ==
-  CASE v = "non_dict" -> k = "multi"
+  CASE v \in {"non_dict", "sibling_label"} -> k = "multi"
     [] v \in {"overlap", "gap"} -> k \in {"source", "down"}       \* only these choose their own chunk boundaries
     [] v = "wrong_dtype_bare" -> k # "down"                        \* a down-chunking plugin can only yield chunks
     [] OTHER -> TRUE
 
 \* how the violating output travels: as a bare array (wrapped by _fix_output) or wrapped in a Chunk by the plugin
-Wrapped(k, v) == v \in {"wrong_dtype_chunk", "wrong_label"} \/ k \in {"source", "down"}
+Wrapped(k, v) == v \in {"wrong_dtype_chunk", "wrong_label", "sibling_label"} \/ k \in {"source", "down"}
 
 VARIABLES kind, viol, pos, proc, pc, by
 vars == <<kind, viol, pos, proc, pc, by>>
@@ -65,7 +66,7 @@ FixOutput ==
         IF viol = "wrong_dtype_bare" THEN Reject("_check_dtype")
         ELSE IF viol \in Outside THEN Reject("Chunk.__init__: data outside chunk")
         ELSE Pass("continuity")
-     ELSE IF viol = "wrong_label" THEN Reject("_fix_output: data_type")
+     ELSE IF viol \in {"wrong_label", "sibling_label"} THEN Reject("_fix_output: data_type")
      ELSE Pass("continuity")
 
 Continuity ==   \* continuity_check on the requested target
